@@ -372,15 +372,31 @@ fn connect<P: AsRef<Path>>(env: &Env, dbfile: P) -> rusqlite::Result<Connection>
     // mode PERSIST.  But WAL fails on Windows WSL due to WSL's totally broken
     // locking.  On WSL, at least PERSIST works in single-threaded mode, so
     // if we're careful we can use it, more or less.
-    let journal_mode = db.query_row(
-        if env.locks_broken() {
-            "pragma journal_mode = PERSIST"
-        } else {
-            "pragma journal_mode = WAL"
-        },
-        [],
-        |row| -> rusqlite::Result<String> { row.get(0) },
-    )?;
+    // Switching a fresh database to WAL needs the file exclusively, and SQLite
+    // does not consult the busy timeout for it: when several first commands
+    // start at once, all but one get "database is locked" right away.  Wait
+    // for the others like the busy timeout would.
+    let deadline = std::time::Instant::now() + Duration::from_secs(60);
+    let journal_mode = loop {
+        match db.query_row(
+            if env.locks_broken() {
+                "pragma journal_mode = PERSIST"
+            } else {
+                "pragma journal_mode = WAL"
+            },
+            [],
+            |row| -> rusqlite::Result<String> { row.get(0) },
+        ) {
+            Err(rusqlite::Error::SqliteFailure(e, _))
+                if (e.code == libsqlite3_sys::ErrorCode::DatabaseBusy
+                    || e.code == libsqlite3_sys::ErrorCode::DatabaseLocked)
+                    && std::time::Instant::now() < deadline =>
+            {
+                std::thread::sleep(Duration::from_millis(5));
+            }
+            r => break r?,
+        }
+    };
     if env.locks_broken() {
         assert_eq!(&journal_mode, "persist");
     } else {
